@@ -405,9 +405,8 @@ func raceSig(blk string) string {
 	for _, l := range strings.Split(blk, "\n") {
 		l = strings.TrimSpace(l)
 		if strings.HasPrefix(l, "github.com/CloudyKit/jet") {
-			if i := strings.Index(l, "("); i > 0 {
-				l = l[:i]
-			}
+			l = strings.TrimSuffix(l, "()")
+			l = strings.TrimPrefix(l, "github.com/CloudyKit/jet/v6")
 			fr = append(fr, l)
 		}
 		if strings.HasPrefix(l, "Previous") || strings.HasPrefix(l, "Goroutine") {
